@@ -13,14 +13,15 @@ Print Assumptions C08_unsupported_type_never_parses.
 
 (* every annotated item that uses an unsupported construct in a non-skipped position (bad field /
    payload / alias / const / serialized_as type, tuple struct or variant with several fields,
-   serde(flatten), data-carrying enum without tag+content, tag/content on a unit enum, const that is
-   not an integer literal) fails to parse, outside the two recorded finding classes; stated under the
+   serde(flatten) on a struct field or a struct-variant field, data-carrying enum without tag+content,
+   tag/content on a unit enum, const whose initialiser is not a possibly parenthesised / negated
+   integer literal) fails to parse - no recorded class is excepted any more; stated under the
    hypothesis that the code's skip decision is the documented one (C13) ... *)
 Theorem C08_unsupported_item_rejected :
   forall (uc : unicode) (tstr : str -> option ty) (T : list str),
     (forall attrs, is_skipped T attrs = skipped8 T attrs) ->
   forall it : item,
-    item_unsupported uc tstr T it = true -> known_C08 T it = None ->
+    item_unsupported uc tstr T it = true ->
     is_ok (Proofs.C08.parse_leaf8 uc tstr T it) = false.
 Proof. exact Proofs.C08.unsupported_item_never_ok. Qed.
 Print Assumptions C08_unsupported_item_rejected.
@@ -28,10 +29,18 @@ Print Assumptions C08_unsupported_item_rejected.
 (* ... which holds outright when no --target-os is given *)
 Theorem C08_unsupported_item_rejected_no_target :
   forall (uc : unicode) (tstr : str -> option ty) (it : item),
-    item_unsupported uc tstr [] it = true -> known_C08 [] it = None ->
+    item_unsupported uc tstr [] it = true ->
     is_ok (Proofs.C08.parse_leaf8 uc tstr [] it) = false.
 Proof. exact Proofs.C08.unsupported_item_never_ok_no_target. Qed.
 Print Assumptions C08_unsupported_item_rejected_no_target.
+
+(* never silently mis-generated: a const that IS accepted carries exactly the integer its initialiser
+   denotes (const_value8: the literal, through parentheses and negations) *)
+Theorem C08_const_value_faithful :
+  forall (uc : unicode) (tstr : str -> option ty) (attrs : list attr) (ident : str) (t : ty) (e : cexpr) (c : rconst),
+    parse_const uc tstr attrs ident t e = Ok (ItConst c) -> const_value8 e = Some (cvalue c).
+Proof. exact Proofs.C08.const_value_faithful. Qed.
+Print Assumptions C08_const_value_faithful.
 
 (* moving the construct under serde(skip) / typeshare(skip): the item parses exactly as if the
    member were not there *)
@@ -46,11 +55,43 @@ Theorem C08_skipped_variant_is_as_absent :
 Proof. exact Proofs.FrontItems.enum_skipped_variant_irrelevant. Qed.
 Print Assumptions C08_skipped_variant_is_as_absent.
 
-(* the unrestricted statement is false of the faithful model: one witness per finding class *)
-Theorem C08_const_expr_refuted :
-  let it := IConst [Proofs.C08.a_typeshare] (lit "X") (TPath [] (lit "i32") [])
-                   {| ce_first_lit := Some (CInt (Some (Zpos 5))); ce_plain := None |} in
-  item_unsupported uc_exec (fun _ => None) [] it = true /\ known_C08 [] it <> None /\
-  is_ok (Proofs.C08.parse_leaf8 uc_exec (fun _ => None) [] it) = true.
-Proof. exact Proofs.C08.C08_const_expr_refuted. Qed.
-Print Assumptions C08_const_expr_refuted.
+(* regression pins of the two finding classes fixed in /repo.
+   C08-const-expr: `const X: i32 = -5;` (also -(5), (-5)) is accepted with the value -5 (was 5); any other
+   expression (1 + 2, foo(7), 7 as u32) is rejected with RustConstExprInvalid, also under a negation;
+   a non-integer literal with RustConstTypeInvalid *)
+Theorem C08_const_expr_fixed :
+  (forall e, In e [CENeg (Proofs.C08.c08_lit 5); CENeg (CEParen (Proofs.C08.c08_lit 5)); CEParen (CENeg (Proofs.C08.c08_lit 5))] ->
+     item_unsupported uc_exec (fun _ => None) [] (Proofs.C08.c08_const e) = false /\
+     match Proofs.C08.parse_leaf8 uc_exec (fun _ => None) [] (Proofs.C08.c08_const e) with
+     | Ok (ItConst c) => cvalue c = Zneg 5
+     | _ => False
+     end) /\
+  item_unsupported uc_exec (fun _ => None) [] (Proofs.C08.c08_const CEOther) = true /\
+  Proofs.C08.parse_leaf8 uc_exec (fun _ => None) [] (Proofs.C08.c08_const CEOther) = Err EConstExprInvalid /\
+  Proofs.C08.parse_leaf8 uc_exec (fun _ => None) [] (Proofs.C08.c08_const (CENeg CEOther)) = Err EConstExprInvalid /\
+  Proofs.C08.parse_leaf8 uc_exec (fun _ => None) [] (Proofs.C08.c08_const (CELit CNotInt)) = Err EConstTypeInvalid.
+Proof. exact Proofs.C08.C08_const_expr_fixed. Qed.
+Print Assumptions C08_const_expr_fixed.
+
+(* C08-flatten-variant: #[serde(tag = "t", content = "c")] enum E { V { #[serde(flatten)] x: u8 } } is
+   rejected with SerdeFlattenNotAllowed, like a struct field (was accepted) *)
+Theorem C08_flatten_variant_fixed :
+  let flat := {| a_inner := false; a_meta := MList [lit "serde"] (Some [MPath [lit "flatten"]]) None |} in
+  let tagc := {| a_inner := false; a_meta := MList [lit "serde"] (Some [MNV [lit "tag"] (VStr (lit "t")); MNV [lit "content"] (VStr (lit "c"))]) None |} in
+  let it := IEnum [Proofs.C08.a_typeshare; tagc] (lit "E") []
+                  [{| v_attrs := []; v_ident := lit "V";
+                      v_fields := FNamed [{| f_attrs := [flat]; f_ident := Some (lit "x"); f_ty := Proofs.C08.ty_u8 |}] |}] in
+  item_unsupported uc_exec (fun _ => None) [] it = true /\
+  Proofs.C08.parse_leaf8 uc_exec (fun _ => None) [] it = Err ESerdeFlatten.
+Proof. exact Proofs.C08.C08_flatten_variant_fixed. Qed.
+Print Assumptions C08_flatten_variant_fixed.
+
+(* the hypotheses are satisfiable: Vec<Option<u64>> in a struct field is unsupported and is rejected *)
+Theorem C08_nonvacuous_witness :
+  let it := IStruct [Proofs.C08.a_typeshare] (lit "S") []
+                    (FNamed [{| f_attrs := []; f_ident := Some (lit "a");
+                                f_ty := TPath [] (lit "Vec") [Some (TPath [] (lit "Option") [Some (TPath [] (lit "u64") [])])] |}]) in
+  item_unsupported uc_exec (fun _ => None) [] it = true /\
+  is_ok (Proofs.C08.parse_leaf8 uc_exec (fun _ => None) [] it) = false.
+Proof. exact Proofs.C08.C08_nonvacuous. Qed.
+Print Assumptions C08_nonvacuous_witness.
